@@ -36,17 +36,22 @@ def poison_uninitialised_memory():
     if getattr(np, "_pms_poisoned", False):
         return
     _empty, _empty_like = np.empty, np.empty_like
+    count = [0]
 
     def fill(a):
         try:
             if isinstance(a, np.ndarray) and a.size:
                 k = a.dtype.kind
+                count[0] += 1
+                # what is handed out changes from call to call (NaN, then large finite values), as recycled heap memory does:
+                # two identical calls of a routine that returns entries it never wrote do not agree
+                junk = np.nan if count[0] % 2 else float(count[0] % 89 + 1) * 1.0e150
                 if k == "f":
-                    a.fill(np.nan)
+                    a.fill(junk if a.dtype.itemsize >= 8 else np.nan)
                 elif k == "c":
-                    a.fill(complex(np.nan, np.nan))
+                    a.fill(complex(junk, junk) if a.dtype.itemsize >= 16 else complex(np.nan, np.nan))
                 elif k in "iu":
-                    a.fill(np.iinfo(a.dtype).max // 3)
+                    a.fill(np.iinfo(a.dtype).max // 3 - (count[0] % 89))
                 elif k == "b":
                     a.fill(True)
         except Exception:      # noqa: BLE001 — exotic dtypes are left as numpy returned them
